@@ -15,8 +15,8 @@ same table to the model.  Snappy is not installed: `snappy_decode` raises `NotIm
 namespace Afkak.C12
 open Afkak.Crc32 Afkak.WireCost Afkak.Consts
 
-/-- `gzip_decode(value)`; `value` may be `None`. -/
-abbrev Gz := Option (List UInt8) → Except Err (List UInt8)
+/-- `gzip_decode(value)`; `value` may be `None`.  An exception is given by its class name. -/
+abbrev Gz := Option (List UInt8) → Except String (List UInt8)
 
 /-- Outcome of `_decode_message(msg, offset)` followed by exhausting the generator it returns. -/
 inductive MsgRes where
@@ -75,7 +75,7 @@ def decodeMessage (inner : List UInt8 → SetOut) (gunzip : Gz) (msg : Option (L
               .out [(offset, { magic := magic, attrs := att, key := key, value := value, ts := ts })] none k 0
             else if codec == c12CodecGzip then
               match gunzip value with
-              | .error e => .out [] (some e) k 0
+              | .error cls => .out [] (some (.external cls)) k 0
               | .ok g =>
                 let r := inner g
                 if magic == 0 then .out r.msgs r.err (k + r.cost) (g.length + r.gz)
@@ -138,10 +138,14 @@ def encBytes : Option (List UInt8) → List UInt8
   | none => toBESigned 4 (-1)
   | some b => toBESigned 4 b.length ++ b
 
+def encTs : Option Int → List UInt8
+  | some t => toBESigned 8 t
+  | none => []
+
 /-- magic, attributes, [timestamp], key, value -/
 def encodeBody (m : Msg) : List UInt8 :=
-  [UInt8.ofNat m.magic.toNat, UInt8.ofNat m.attrs.toNat] ++
-    (match m.ts with | some t => toBESigned 8 t | none => []) ++ encBytes m.key ++ encBytes m.value
+  [UInt8.ofNat m.magic.toNat, UInt8.ofNat m.attrs.toNat] ++ encTs m.ts ++ encBytes m.key
+    ++ encBytes m.value
 
 /-- Crc MagicByte Attributes [Timestamp] Key Value -/
 def encodeMessage (m : Msg) : List UInt8 :=
@@ -156,5 +160,26 @@ def encodeEntry (om : Int × Msg) : List UInt8 :=
 def encodeSet : List (Int × Msg) → List UInt8
   | [] => []
   | om :: rest => encodeEntry om ++ encodeSet rest
+
+/-! ## Well-formed plain messages (the hypothesis of the truncation theorem) -/
+
+def int64 (i : Int) : Bool := decide (-9223372036854775808 ≤ i) && decide (i < 9223372036854775808)
+
+def optLen : Option (List UInt8) → Nat
+  | none => 0
+  | some b => b.length
+
+/-- A message the encoder can represent and that is not a compression wrapper: magic 0 without
+    timestamp or magic 1 with an int64 timestamp, attributes one byte with codec bits 0, key,
+    value and the whole encoded message shorter than 2^31 (the size field is an int32). -/
+def plainMsg (m : Msg) : Bool :=
+  ((m.magic == 0 && m.ts == none) ||
+    (m.magic == 1 && (match m.ts with | some t => int64 t | none => false)))
+  && decide (0 ≤ m.attrs) && decide (m.attrs < 256)
+  && (m.attrs.toNat &&& c12CodecMask == c12CodecNone)
+  && decide (optLen m.key < 2147483648) && decide (optLen m.value < 2147483648)
+  && decide ((encodeMessage m).length < 2147483648)
+
+def plainEntry (om : Int × Msg) : Bool := int64 om.1 && plainMsg om.2
 
 end Afkak.C12
